@@ -366,11 +366,11 @@ lists at an existing element position, maps at any key. -/
 def assocValue (c idx v : Value) : Except Exc Value :=
   match c with
   | .list vs => do
-    match ← parseIdx idx with
-    | .elem i => match ← resolveIdx vs.length (.elem i) with
-      | .inl p => .ok (.list (vs.set p v))
-      | .inr _ => .error Exc.elemOp
-    | .slice _ _ _ => .error Exc.elemOp
+    -- the index is resolved against the list first (a slice out of range is
+    -- "out of range"), then a slice is refused
+    match ← resolveIdx vs.length (← parseIdx idx) with
+    | .inl p => .ok (.list (vs.set p v))
+    | .inr _ => .error Exc.elemOp
   | .map m => .ok (.map (mapPut m idx v))
   -- a string: the codepoint / byte range is replaced by a string
   | .str s => do
